@@ -223,6 +223,33 @@ func buildEntries() []Entry {
 			}
 		}
 		add("cmd."+s.Name+".Unmarshal", seeds, func(in []byte) { c := s.New(); c.Unmarshal(in) })
+		// a batched (AndX) message: the first command names a second one of the same kind and
+		// where it starts; the second one ends the chain. Corruptions of the link fields of such
+		// a seed reach decoders that follow the chain.
+		if c := s.New(); c.IsAndX() {
+			smbgen.Fill(c, rels, mon.NewRand(7, "c07chain|"+s.Name), smbgen.ModeOne, 8)
+			var tail []byte
+			var err error
+			if p, _, _ := mon.Guard(func() { tail, err = c.Marshal() }); !p && err == nil && len(tail) > 0 {
+				for _, off := range []int{32 + len(tail)} {
+					x := andx.NewAndX()
+					x.AndXCommand, x.AndXOffset = c.GetCommandCode(), uint16(off)
+					c2 := s.New()
+					smbgen.Fill(c2, rels, mon.NewRand(7, "c07chain|"+s.Name), smbgen.ModeOne, 8)
+					c2.SetAndX(x)
+					var head []byte
+					if p, _, _ := mon.Guard(func() { head, err = c2.Marshal() }); !p && err == nil && len(head) == len(tail) {
+						h := header.NewHeader()
+						h.Command = c.GetCommandCode()
+						if s.Response {
+							h.Flags |= 0x80
+						}
+						hb, _ := h.Marshal()
+						allMsgs = append(allMsgs, append(append(hb, head...), tail...))
+					}
+				}
+			}
+		}
 	}
 	add("message.Unmarshal", allMsgs, func(in []byte) { message.NewMessage().Unmarshal(in) })
 
